@@ -1030,3 +1030,13 @@ func init() {
 	reg("("+pkSDK+".DecCoin).String", strOf("deccoin_str"))
 	reg("("+pkSDK+".DecCoins).String", strOf("deccoins_str"))
 }
+
+func init() {
+	regs([]string{"(cosmossdk.io/errors.Error).Error", "(*cosmossdk.io/errors.Error).Error"}, func(p *Path, fr *frame, a []Value, pos token.Pos) Value {
+		eo, _ := a[0].(*ErrObj)
+		if eo == nil {
+			p.panicNow(p.site(pos), "Error() on nil *errors.Error", nil)
+		}
+		return eo.Msg
+	})
+}
